@@ -45,9 +45,9 @@ class Result:
 
 def jsonable(o: Any) -> Any:
     try:
-        json.dumps(o)
+        json.dumps(o, sort_keys=True)
         return o
-    except TypeError:
+    except (TypeError, ValueError, OverflowError):
         if isinstance(o, dict):
             return {str(k): jsonable(v) for k, v in o.items()}
         if isinstance(o, (list, tuple, set, frozenset)):
@@ -181,10 +181,18 @@ def pmap_chunks(fn: Callable[[Sequence[Any]], Any], items: Sequence[Any], chunk:
         for c in chunks:
             yield fn(c)
         return
+    # concurrent.futures, not multiprocessing.Pool: when a worker process dies (killed, SystemExit / KeyboardInterrupt
+    # escaping a task, os._exit) a Pool waits for its result for ever; an executor raises BrokenProcessPool, which ends the check
+    # as a harness error instead of a hang.  maxtasks (bounding what a long-lived worker accumulates) = executor generations.
+    import concurrent.futures as cf
+
     ctx = mp.get_context("fork")
-    with ctx.Pool(jobs, initializer=_init_worker, initargs=(fn,), maxtasksperchild=maxtasks) as pool:
-        for r in pool.imap_unordered(_call, chunks):
-            yield r
+    gen_size = len(chunks) if not maxtasks else jobs * maxtasks
+    for g in range(0, len(chunks), gen_size):
+        with cf.ProcessPoolExecutor(jobs, mp_context=ctx, initializer=_init_worker, initargs=(fn,)) as ex:
+            futs = [ex.submit(_call, c) for c in chunks[g : g + gen_size]]
+            for f in cf.as_completed(futs):
+                yield f.result()
 
 
 class Clock:
